@@ -347,6 +347,7 @@ func runC19(c *core.Ctx) {
 	if nSel == 0 {
 		c.Undecided("R19.3", "cluster.Handler#selections", "-", "no Continuum.Hash selection found")
 	}
+	runC19b(c)
 }
 
 func namedOf(t types.Type) *types.Named {
